@@ -629,7 +629,7 @@ func assignFields(t *rapid.T, p *Prod, e *Expr, pi int) {
 	walk = func(e *Expr, inNeg bool) {
 		switch e.Kind {
 		case KCap:
-			kinds := []FKind{FStr, FStr, FStrs, FStrs, FBool, FPStr, FTok, FToks, FNStr, FNBool, FPBool}
+			kinds := []FKind{FStr, FStr, FStrs, FStrs, FBool, FPStr, FTok, FToks, FNStr, FNBool, FPBool, FCapt, FCaptP, FCapts, FText}
 			if numLike(e.Kids[0]) {
 				kinds = []FKind{FInt, FInt, FInts, FInts, FInt8, FStr, FStrs, FToks}
 			} else if rapid.IntRange(0, 19).Draw(t, "numAnyway") == 0 {
